@@ -22,7 +22,8 @@ CHECKS = {
              'dispatcher, inert middleware + handler tables); every return value is judged by a strict JSON decoder and a structural '
              'checker that share no code with pjrpc. The repository test-suite additionally runs under icontract / wrapper contracts. '
              'Extra dispatcher flavours: plain functions on the async dispatcher, inert hooks with unconventional parameter names, pjrpc loggers enabled for DEBUG. '
-             'Also (round 9): unregistered names in the rpc. namespace / padded with white space, a bound on a type pydantic converts before checking (timedelta), a view method with a parameter named context.',
+             'Also (round 9): unregistered names in the rpc. namespace / padded with white space, a bound on a type pydantic converts before checking (timedelta), a view method with a parameter named context. '
+             'Round 10: AsyncDispatcher(concurrent_batch=False) as a flavour; methods under PydanticValidator(coerce=False), a name registered inside rpc., a $id/$ref schema with a slow user format check.',
         note='trusted: vmon/strictjson.py, vmon/models/wire.py; probe methods return JSON-encodable values; lenient-parser tokens judged for totality only'),
     'C02': dict(
         category='exploration', design_ref='DESIGN.md §3 C02, §8',
@@ -50,7 +51,8 @@ CHECKS = {
              'textually with the context name, a view\'s context name equals a parameter name, one function object is registered with '
              'and without a context, all generated functions share one __qualname__. '
              'Also: names the library uses for its own parameters, an async def behind a functools.wraps decorator, the same programs under the pydantic validator (Union[int, str] = None defaults) and under a validator built with exclude_param, by-name arguments wrapped in an array. '
-             'Round 8: positional values spelled like parameter names, a JSON-schema validator that constrains nothing.',
+             'Round 8: positional values spelled like parameter names, a JSON-schema validator that constrains nothing. '
+             'Also: the pydantic validator built with extra=ignore / allow.',
         note='trusted: CPython call semantics (the twin), the admissibility rule of DESIGN.md §3 C04; known findings D4, D18'),
     'C05': dict(
         category='exploration', design_ref='DESIGN.md §3 C05, §8',
@@ -59,7 +61,8 @@ CHECKS = {
              'registered codes incl. a class with class-level data, unregistered codes incl. 0 and the reserved range, empty messages, '
              'three base classes in both orders of use) go through both encoders and back; wire-form exactness is judged on an '
              'independently decoded text, exception classes by type identity; batches also through serialise/append/extend histories. '
-             'Also: method names not in a Unicode normal form, params member names that are no identifiers, error classes created through a derived metaclass, a code declared by two classes, null-id elements in batch responses, and the same batches through the real clients.',
+             'Also: method names not in a Unicode normal form, params member names that are no identifiers, error classes created through a derived metaclass, a code declared by two classes, null-id elements in batch responses, and the same batches through the real clients. '
+             'Also: batches of n calls answered with a batch-level error through the real client.',
         note='trusted: vmon/strictjson.py, vmon/gen/values.py; -0.0 vs 0.0 not distinguished'),
     'C06': dict(
         category='exploration', design_ref='DESIGN.md §3 C06, §8',
@@ -70,7 +73,8 @@ CHECKS = {
              'verdict are compared with validity predicates, batch contents with a list model after every operation; one shard runs under '
              'icontract invariants on the real batch classes. '
              'Registered error codes (library and user) are crossed with absent / ill-typed messages. '
-             'Payloads nested 100..900 levels deep stay opaque to deserialisation.',
+             'Payloads nested 100..900 levels deep stay opaque to deserialisation. '
+             'Also: error objects deserialised through the library own error classes (error_cls=ServerError, MethodNotFoundError, ...).',
         note='trusted: validity predicates in vmon/monitors/c06.py; float ids and rejection of valid values are not judged'),
     'C07': dict(
         category='exploration', design_ref='DESIGN.md §3 C07, §8',
@@ -79,7 +83,8 @@ CHECKS = {
              'decreasing delays) run in all ten notations on the real sync / async clients whose transport is the real sync / async '
              'dispatcher, under four id generators, strict on/off and two error base classes; the single wire document, the value / '
              'exception reaching the caller, server-side executions and equality across notations are judged. '
-             'Round 8: a client base class overriding get_error_cls, a BatchRequest extended between two sends.',
+             'Round 8: a client base class overriding get_error_cls, a BatchRequest extended between two sends. '
+             'Also: a server-side application encoder whose results only it can write; LoggingTracer attached to part of the clients.',
         note='trusted: twin table in vmon/models/server.py, vmon/models/wire.py; known finding D7 (uuid id generator)'),
     'C08': dict(
         category='fault_enumeration', design_ref='DESIGN.md §3 C08, §8',
@@ -89,7 +94,8 @@ CHECKS = {
              'batch-level errors and garbage bodies are returned by a scripted transport to the real clients (strict on/off, send and '
              'call, also re-sending the same request object); accept / IdentityError / DeserializationError, request linking, call-order '
              'attribution of unique tokens and survival of null-id errors are compared with the model. '
-             'Also: call ids of mixed JSON types, two missing and two stray answers.',
+             'Also: call ids of mixed JSON types, two missing and two stray answers. '
+             'Also: error objects lacking a required member under codes that have an error class.',
         note='trusted: vmon/models/client_match.py; non-JSON bodies and null-id elements combined with missing ids are not judged'),
     'C09': dict(
         category='fault_enumeration', design_ref='DESIGN.md §3 C09, §8',
@@ -101,7 +107,8 @@ CHECKS = {
              'sleep function) and the object reaching the caller are compared with the model. '
              'Also: delays that come back below the cap, exceptions that wrap a listed one, per-request strategies that list nothing, error codes from the reserved server-error range. '
              'Round 8: user-defined iterator backoffs; the requests / httpx backends against a loop-back peer that drops connections. '
-             'Also: attempts that end in an exception the client raises itself while processing the reply (IdentityError for a stale answer), listed directly / through a base class / not listed.',
+             'Also: attempts that end in an exception the client raises itself while processing the reply (IdentityError for a stale answer), listed directly / through a base class / not listed. '
+             'Also: batch.proxy...call() and batch(...)...call() entry points.',
         note='trusted: vmon/models/retry.py; the names time/asyncio inside pjrpc.client.retry are rebound to recording shims'),
     'C10': dict(
         category='exploration', design_ref='DESIGN.md §3 C10, §2.7, §8',
@@ -113,7 +120,8 @@ CHECKS = {
              'run-once, nothing left in flight, sequential mode never overlapping and in request order). '
              'Element profiles include plain methods raising TypeError, class-based view methods keeping state on self, the codes -32600 / -32700, per-code handlers that sign the error, and a context variable set by the middleware and read after the method\'s suspension points. '
              'Round 8: one-element batches; dispatchers handed out by the aiohttp integration. '
-             'Also: elements calling unregistered methods; an integration application whose own dispatcher is explicitly configured the other way round than the endpoint dispatcher under test.',
+             'Also: elements calling unregistered methods; an integration application whose own dispatcher is explicitly configured the other way round than the endpoint dispatcher under test. '
+             'Also: a dispatcher with its own response class and a middleware that builds plain responses.',
         note='trusted: vmon/sched.py; exhaustive over user-code suspension points of the generated shapes only'),
     'C11': dict(
         category='exploration', design_ref='DESIGN.md §3 C11, §8',
@@ -125,7 +133,8 @@ CHECKS = {
              'C08 scripted response documents run on the sync and the async client. Documents, code tuples, execution logs, event '
              'sequences, wire documents, outcomes, tracer events and sleep arguments are compared pairwise; no model is involved. '
              'Round 8: the sync and async httpx backends against one scripted HTTP peer (media types x answers). '
-             'Also: an application encoder whose default() writes the request objects itself; answers whose bytes are not valid in the declared / default charset on the httpx backend pair.',
+             'Also: an application encoder whose default() writes the request objects itself; answers whose bytes are not valid in the declared / default charset on the httpx backend pair. '
+             'Also: results the response encoder refuses, on both dispatcher halves.',
         note='trusted: only the comparison code; a defect present in both twins is invisible here (other checks cover that)'),
     'C12': dict(
         category='exploration', design_ref='DESIGN.md §3 C12, §8',
@@ -137,7 +146,8 @@ CHECKS = {
              'dispatchers; per-element enter/exit/handler event sequences (with the objects handed over), executions and the response '
              'sent are compared with the model. '
              'Round 8: dispatchers configured with their own response classes, plain dict contexts. '
-             'Also: a middleware refusing calls with an error response carrying the request id and a -32600 / -32700 code; handlers translating failures into those codes.',
+             'Also: a middleware refusing calls with an error response carrying the request id and a -32600 / -32700 code; handlers translating failures into those codes. '
+             'Also: handler entries under the rejection codes; the endpoint dispatcher of an aiohttp application served below an outer prefix, reached over HTTP.',
         note='trusted: the model in vmon/monitors/c12.py + vmon/models/server.py; probes do not raise'),
     'C13': dict(
         category='exploration', design_ref='DESIGN.md §3 C13, §8',
@@ -150,7 +160,8 @@ CHECKS = {
              'dispatchers with response-changing middlewares, every response compared with the model / a sequential twin; (5) hooks that raise in the leak workload; (6) a fingerprint of '
              'interpreter-wide settings (int digit limit, recursion limit, logging levels, json default codec ...) before, after and during dispatches. '
              'Also: dispatches cancelled from outside while batch members are suspended, one AsyncDispatcher under several event loops, the same request text repeated before a probe that mutates its arguments, custom validator code failing before a probe. '
-             'Also: requests carrying extension members with per-request values (judged on sys.getallocatedblocks), application decoder / encoder classes with per-document state on the instance.',
+             'Also: requests carrying extension members with per-request values (judged on sys.getallocatedblocks), application decoder / encoder classes with per-document state on the instance. '
+             'Also: a jsonschema-validated method with $id / $ref and a slow user format check in the thread workload.',
         note='trusted: vmon/models/server.py; held on the interleavings observed (counted in the evidence), not on all'),
     'C14': dict(
         category='exploration', design_ref='DESIGN.md §3 C14, §8',
@@ -162,7 +173,8 @@ CHECKS = {
              'encodable data, unchanged / converted arguments and non-settable excluded parameters are judged against an evaluator '
              'written for exactly that alphabet. One function object is also registered without a context. '
              'Also: per-item array constraints, methods compiled under postponed annotations in a real module, dispatchers handed out by an integration\'s add_endpoint(). '
-             'Also: unhashable mutable defaults ([] / {}) under the pydantic validator.',
+             'Also: unhashable mutable defaults ([] / {}) under the pydantic validator. '
+             'Also: a json_loader yielding Decimal; a context handed over positionally.',
         note='trusted: frag_ok / schema_ok and the ANNOT table in vmon/monitors/c14.py (checked against pydantic 2.13 lax mode)'),
     'C15': dict(
         category='exploration', design_ref='DESIGN.md §3 C15, §8',
@@ -173,7 +185,8 @@ CHECKS = {
              'name, every name one edit away and every private / dunder / non-callable member of views with instance, static, class '
              'and inherited members (also from mixins behind ViewMixin, and a derived view replacing its base) under every prefix in play, and explicitly registered underscore names, is requested and the reached target token compared with the model. '
              'Names may be given as str-mixin enum members or str subclasses; a registered view whose constructor raises KeyError must not look unregistered; a derived view may turn an inherited attribute into a method. '
-             'Also: names padded with white space; public view methods named like library vocabulary (context, method).',
+             'Also: names padded with white space; public view methods named like library vocabulary (context, method). '
+             'Also: functools.wraps aliases renamed after wrapping; view members with a trailing underscore.',
         note='trusted: the name model inside vmon/monitors/c15.py; add_methods(Method) under a prefix is not judged'),
     'C16': dict(
         category='exploration', design_ref='DESIGN.md §3 C16, §8',
@@ -185,7 +198,8 @@ CHECKS = {
              'user objects, "entry alone == entry together in any order (component names included)", "a reused specification object == a '
              'fresh one" are judged in process, meta-schema validity and dangling $refs by a jsonschema-4 worker. '
              'Also: parameters named ref, hand-written content descriptors, docstrings with types but no text, abstract / unknown names in :raises:, undocumented overrides of documented base methods, names differing only in separators; meta-schema failures are located by their innermost sub-error. '
-             'Also: methods that are functools.partial objects over one function, pydantic model configuration handed through the extractor, tuples / a set among OpenAPI example values.',
+             'Also: methods that are functools.partial objects over one function, pydantic model configuration handed through the extractor, tuples / a set among OpenAPI example values. '
+             'Also: root paths with a trailing slash; one annotate(...) decorator object on several methods with another stacked above.',
         note='trusted: vendored meta-schemas (hash-pinned copies of tests/server/resources), jsonschema 4.26 of python3-vt; known findings D13d, D22, D23'),
     'C17': dict(
         category='exploration', design_ref='DESIGN.md §3 C17, §8',
@@ -197,7 +211,8 @@ CHECKS = {
              'are dispatched on the real dispatcher to compare acceptance with the document\'s prediction; the same function is also '
              'registered without a context and both registrations are probed alternately. '
              'Also OpenAPI 3.0.x documents, parameters named like schema keywords, *rest parameters, Optional annotations on required parameters, a bystander method whose name differs only in a separator. '
-             'Also: required parameters described through pydantic.Field(...) as python default; the extractor option json_schema_serialization_defaults_required.',
+             'Also: required parameters described through pydantic.Field(...) as python default; the extractor option json_schema_serialization_defaults_required. '
+             'Also: defaults produced by a factory; Method objects derived through copy().',
         note='trusted: the real dispatcher with the base validator as acceptance reference (itself judged by C04)'),
     'C18': dict(
         category='exploration', design_ref='DESIGN.md §3 C18, §8',
@@ -210,7 +225,8 @@ CHECKS = {
              'against a twin dispatcher called directly, and the three replies to one request against each other. '
              'A reply that never comes is a verdict only if a control request to the same application is answered; endpoints behind a flask blueprint with its own url_prefix. '
              'Round 8: structured-suffix media types; a pjrpc sub-Application mounted through add_subapp. '
-             'Also: status functions returning statuses without a registered reason phrase (299, 499, 520, 599); a hosting application that reads the body before the integration does.',
+             'Also: status functions returning statuses without a registered reason phrase (299, 499, 520, 599); a hosting application that reads the body before the integration does. '
+             'Also: a process-wide default content type other than application/json; bodies starting with a byte-order mark.',
         note='trusted: the twin dispatcher (itself judged by C01-C03); loop-back sockets must be available for the aiohttp part'),
     'C19': dict(
         category='fault_enumeration', design_ref='DESIGN.md §3 C19, §8',
@@ -223,7 +239,8 @@ CHECKS = {
              'trace-context identity and the exception reaching the caller. '
              'Also: StopIteration raised by the transport, batches built with strict=False, a last tracer that raises in a completion handler (judged for one begin / exactly one completion per tracer). '
              'Round 8: LoggingTracer riding along, tracers given as deque / dict view, contexts that take no attributes. '
-             'Also: distinct tracers that compare equal.',
+             'Also: distinct tracers that compare equal. '
+             'Also: exception groups, KeyboardInterrupt and SystemExit as attempt outcomes.',
         note='trusted: vmon/models/retry.py for which attempts happen; probe tracers do not raise'),
     'C20': dict(
         category='exploration', design_ref='DESIGN.md §3 C20, §8',
@@ -234,7 +251,8 @@ CHECKS = {
              'Histories of <= 3 operations over a reduced alphabet are enumerated, longer ones sampled. '
              'Also: batches of one element, parameter names of the mocker\'s own functions, negative replace indices, stop/start of one mocker object, the library\'s requests / httpx / aiohttp backends with non-normalised URLs. '
              'Round 8: patches configured with id=, pass-through to the library backends\' real transport. '
-             'Also: configured errors as seen through send / call / a batch element of the real client, for codes with and without an error class of their own.',
+             'Also: configured errors as seen through send / call / a batch element of the real client, for codes with and without an error class of their own. '
+             'Also: recorded / callback arguments of calls made through every client notation.',
         note='trusted: the list model inside vmon/monitors/c20.py; notifications and invalid remove/replace are not generated'),
 }
 
